@@ -91,10 +91,14 @@ def cscd(rng, std, pk):
     else:
         des.update(ieee_company_id=rng.randint(0, 2 ** 24 - 1), vendor_specific_identifier=rng.randint(0, 2 ** 36 - 1),
                    vendor_specific_identifier_extension=rng.randint(0, 2 ** 64 - 1))
+    params = {"code_set": rng.choice([1, 2, 3]), "association": rng.randrange(3), "designator_type": 3,
+              "designator_length": 16 if naa == 6 else 8, "designator": des}
+    if rng.random() < 0.4:
+        # the dictionary comes from a decoded VPD 83h designation descriptor: it also carries that page's own keys
+        params.update(piv=1, protocol_identifier=rng.choice([5, 6, 15]))
     return {"descriptor_type_code": 0xE4, "peripheral_device_type": 0, "lu_id_type": 0,
             "relative_initiator_port_identifier": pick(rng, 65535),
-            pk: {"code_set": rng.choice([1, 2, 3]), "association": rng.randrange(3), "designator_type": 3,
-                 "designator_length": 16 if naa == 6 else 8, "designator": des},
+            pk: params,
             "device_type_specific_parameters": {"pad": rng.getrandbits(1), "disk_block_length": pick(rng, 2 ** 24 - 1)}}
 
 
@@ -145,7 +149,14 @@ def run(chk, replay=None):
             cons.append(c)
 
     from ..core.values import num
+    conv = mod("pyscsi.utils.converter")
     for i in range(n):
+        # application code uses the public integer helper for its own buffers and extends what it got back;
+        # the lengths it handles are the ones parameter lists have
+        for w_ in (1, 2, 3, 4):
+            for v_ in (0, 4, 8, 16, 20, 24, 28, 32, 44, 48, 64):
+                buf_ = conv.scsi_int_to_ba(v_, w_)
+                buf_ += b"\xEE" * 18
         for fmt, cls, ten in (("ModeSelect6", "ModeSelect6", False), ("ModeSelect10", "ModeSelect10", True)):
             setname = rng.choice(["spc", "sbc", "smc"])
             d = mode_list(rng, ten)
